@@ -358,13 +358,13 @@ def _c16(bindir, tier, seed):
 meta("C18", level="exploration",
      rule="observer 1 (decider in quick): real threads run real SingletonHolder operations under a token-passing scheduler fed by the tracing shim of hook H1; a DFS over the scheduler's "
           "choices enumerates every interleaving (single atomic/cell access granularity, invocation is a scheduling point too) of all multisets of 2-3 threads x 1 op and 2 threads x <= 2 ops "
-          "over {set(v), get, is_set}, plus two racing setters with a double reader (thorough adds 3 threads with a 2-op thread). Each trace is judged by a set-once-register value oracle over "
+          "over {set(v), get, is_set}, plus two racing setters with a double reader (thorough adds 3 threads with a 2-op thread); beyond that scope, sampled schedules (uniform, sticky and priority-with-change-points strategies) of random configurations with 2-4 threads and up to 4 operations per thread. Each trace is judged by a set-once-register value oracle over "
           "operation intervals (one winner, same fully constructed Arc everywhere, winner not preceded by a completed set, nothing visible before any set, visible after the winning set "
           "completed, payload dropped exactly once) and by a FastTrack-style vector-clock race check using the orderings actually passed (release store/RMW publishes, relaxed store resets, "
           "RMW continues a release sequence, failed CAS = load with the failure ordering). Observer 2: Miri (-Zmiri-many-seeds, weak-memory emulation, data-race detector, UB checks on the "
           "cell) on holder_stress with hooks off; holders are built alternately with new() and default(). Observer 3 (thorough): ThreadSanitizer build of holder_stress. distinct = (configuration, schedule) pairs",
      assumptions=["DRF argument: only one atomic location exists, so if no enumerated SC interleaving has a happens-before race, weak-memory executions of these configurations add no behaviour; Miri's weak-memory emulation is the independent check of this",
-                  "configurations with >= 4 threads or >= 3 operations per thread are not explored; configurations whose interleavings exceed the per-configuration schedule cap are truncated (reported, exhaustive then false)",
+                  "configurations with 4 threads or >= 3 operations per thread are sampled, not enumerated; more than 4 threads or 4 operations per thread are not explored; configurations whose interleavings exceed the per-configuration schedule cap are truncated (reported, exhaustive then false)",
                   "if state.rs synchronises through a primitive the shim does not route, the vector-clock observer switches itself off and Miri/TSan decide race freedom"],
      exhaustive_scope="all SC interleavings of the listed configurations (only when no configuration was truncated)",
      min_evaluations=2000, must_observe={"cell_accesses_checked": 1000, "hb_edges_established": 500, "schedules_with_reader_overlapping_LOADING": 100, "configurations_explored": 30, "miri_seeds_completed": 8, "schedules_on_default_constructed_holder": 500})
@@ -460,10 +460,13 @@ def _c18(bindir, tier, seed):
         jobs = shards(bindir, "holder_driver", "C18", seed, NCPU - 2, ["--level", "core", "--max-schedules", "8000"], 1200)
         jobs.append(miri_job("C18-miri-holder", "C18", "holder_stress", ["3", "2", "2", "3"], 16, seed, 1500))
         jobs.append(native_stress_job("C18-native-stress", "C18", bindir, "holder_stress", ["20000", "2", "3", "6"], 600, runs=4))
+        # sampled schedules of configurations beyond the enumerated scope (2-4 threads, up to 4 operations per thread)
+        jobs += shards(bindir, "holder_driver", "C18s", seed, 2, ["--mode", "sample", "--runs", "2500"], 1200)
         return jobs
     jobs = shards(bindir, "holder_driver", "C18", seed, NCPU, ["--level", "full", "--max-schedules", "400000"], 7200)
     for k in range(4):
         jobs.append(miri_job("C18-miri-holder-%d" % k, "C18", "holder_stress", [["4", "2", "2", "3"], ["3", "3", "2", "2"], ["3", "2", "3", "4"], ["6", "1", "3", "3"]][k], 64, seed + 17 * k, 7200))
+    jobs += shards(bindir, "holder_driver", "C18s", seed, NCPU, ["--mode", "sample", "--runs", "150000", "--schedules-per-config", "150"], 7200)
     jobs.append(tsan_job("C18-tsan-holder", "C18", "holder_stress", ["2000", "2", "3", "6"], 7200, runs=10))
     jobs.append(native_stress_job("C18-native-stress", "C18", bindir, "holder_stress", ["200000", "3", "3", "6"], 7200, runs=16))
     return jobs
